@@ -47,6 +47,9 @@ type SFid struct {
 type session struct {
 	fs   FileSys
 	refs sync.Map // type [Fid](*SFid)
+
+	stopmu  sync.RWMutex
+	stopped bool // set by Stop: no fid can be reserved any more
 }
 
 // TODO(frobnitzem): validate required server returns to ensure non-nil.
@@ -80,11 +83,27 @@ func SFileSys(fs FileSys) Session {
 
 func (sess *session) Stop(err error) error {
 	ctx := CancelledCtxt{}
+
+	// Requests may still be in flight when the connection goes away.
+	// Refuse new fids from now on, so that every fid that will ever be
+	// bound is already in the table ...
+	sess.stopmu.Lock()
+	sess.stopped = true
+	sess.stopmu.Unlock()
+
+	// ... then wait for the operation in flight on each fid (if any) by
+	// taking its lock, and release what it is bound to.
 	sess.refs.Range(func(fid, ref1 interface{}) bool {
 		ref, ok := ref1.(*SFid)
-		if ok && ref.Ent != nil { // close and clunk
+		if !ok {
+			return true
+		}
+		ref.Lock()
+		if ref.Ent != nil { // close and clunk
 			delRefAction(ctx, ref, false)
 		}
+		ref.Unlock()
+		sess.refs.Delete(fid)
 		return true
 	})
 	return err
@@ -144,7 +163,13 @@ func (sess *session) newRef(fid Fid) (ref *SFid, err error) {
 
 	ref = &SFid{}
 	ref.Lock()
+	sess.stopmu.RLock()
+	if sess.stopped {
+		sess.stopmu.RUnlock()
+		return nil, MessageRerror{Ename: "session stopped"}
+	}
 	_, found := sess.refs.LoadOrStore(fid, ref)
+	sess.stopmu.RUnlock()
 	if found {
 		//ref.Unlock() not needed
 		return nil, ErrDupfid
